@@ -3,7 +3,7 @@ import ast
 
 from . import rule, info
 from ..program import AnalysisError, src, norm, ClassInfo
-from ..util import (is_name, calls_in, callee_qual, deref, ancestors, stmt_of, parent, handler_outcomes,
+from ..util import (polarity, branch_of, exclusive, is_name, calls_in, callee_qual, deref, ancestors, stmt_of, parent, handler_outcomes,
                     handler_covers, evaluator_calls, raised_class, is_subclass, fmt_witness)
 from .c03 import sentinel_of
 from .common import option_usage
@@ -236,6 +236,10 @@ def item_loop(ctx):
     ctx.ob(len(r) == 1 and is_name(r[0].value, ret), u, 'otherwise the last result is returned')
     init = [n for n in ast.walk(u.node) if isinstance(n, ast.If) and matches(n.test, 'type(self.spec) in (dict, list)')]
     ok = len(init) == 1 and matches(init[0].body[0], '%s = type(self.spec)()' % ret) and matches(init[0].orelse[0], '%s = None' % ret)
+    if not init:
+        # the same two-way choice as a conditional expression (the normal form)
+        ok = any(matches(n, '%s = type(self.spec)() if type(self.spec) in (dict, list) else None' % ret)
+                 for n in u.node.body if isinstance(n, ast.Assign))
     ctx.ob(ok, u, "an empty input yields an empty container of the spec's type")
     ctx.floor(6)
 
@@ -286,10 +290,18 @@ def aggregator_shapes(ctx):
     p = ctx.program
     u = ctx.unit('grouping.First.agg')
     self_, target, tree = u.params
-    g = [n for n in u.node.body if isinstance(n, ast.If)]
-    ok = len(g) == 1 and norm(g[0].test) == 'self not in tree' and [norm(s_) for s_ in g[0].body] == ['tree[self] = STOP', 'return target']
-    rr = u.node.body[-1]
-    ctx.ob(ok and isinstance(rr, ast.Return) and sentinel_of(p, u, rr.value) == 'STOP', u, 'First yields the first item, then STOP')
+    fcfg = ctx.cfg(u)
+    tests = [(n, polarity(n.ast, '%s in %s' % (self_, tree))) for n in fcfg.nodes if n.kind == 'test']
+    tests = [(n, e) for n, e in tests if e]
+    ok = len(tests) == 1
+    if ok:
+        t, seen_edge = tests[0]
+        seen = [norm(n.ast) for n in exclusive(fcfg, t, seen_edge) if n.kind == 'stmt']
+        first = [norm(n.ast) for n in exclusive(fcfg, t, 'false' if seen_edge == 'true' else 'true') if n.kind == 'stmt']
+        rs = [n for n in exclusive(fcfg, t, seen_edge) if n.kind == 'stmt' and isinstance(n.ast, ast.Return)]
+        ok = first == ['%s[%s] = STOP' % (tree, self_), 'return %s' % target] and len(seen) == 1 and len(rs) == 1 \
+            and sentinel_of(p, u, rs[0].ast.value) == 'STOP'
+    ctx.ob(ok, u, 'First yields the first item, then STOP')
     for q, op in (('grouping.Max.agg', ast.Gt), ('grouping.Min.agg', ast.Lt)):
         u = ctx.unit(q)
         g = [n for n in u.node.body if isinstance(n, ast.If)]
@@ -338,9 +350,20 @@ def aggregator_shapes(ctx):
            'Limit is refused outside group mode')
     option_usage(ctx, ['grouping.Limit', 'grouping.Sample', 'grouping.Group'])
     fu = ctx.unit('reduction.Fold.glomit')
-    g = [n for n in fu.node.body if isinstance(n, ast.If) and 'scope[MODE] is GROUP' in norm(n.test)]
-    ok = len(g) == 1 and norm(g[0].test) == 'scope[MODE] is GROUP and scope.get(CUR_AGG) is None' and len(g[0].body) == 2 \
-        and matches(g[0].body[0], 'scope[CUR_AGG] = self') and matches(g[0].body[1], '$f = True')
+    gcfg = ctx.cfg(fu)
+    claim = [n for n in gcfg.nodes if n.kind == 'stmt' and matches(n.ast, 'scope[CUR_AGG] = self')]
+    ok = len(claim) == 1
+    if ok:
+        ok = False
+        for t in gcfg.nodes:
+            if t.kind != 'test' or not gcfg.dominates(t, claim[0]):
+                continue
+            cond = deref(gcfg, t, t.ast)
+            if matches(cond, 'scope[MODE] is GROUP and scope.get(CUR_AGG) is None') \
+                    and claim[0] in exclusive(gcfg, t, 'true'):
+                # the flag that later selects aggregation is true exactly on this edge
+                flag_set = [n for n in exclusive(gcfg, t, 'true') if n.kind == 'stmt' and matches(n.ast, '$f = True')]
+                ok = bool(flag_set) or is_name(t.ast)
     ctx.ob(ok, fu, 'in group mode the outermost Fold of a leaf aggregates across items')
     ag = [c for c in calls_in(fu) if isinstance(c.func, ast.Attribute) and c.func.attr == '_agg']
     ok = len(ag) == 1 and is_name(ag[0].args[0], fu.params[1]) and norm(ag[0].args[1]) == 'scope[ACC_TREE]'
